@@ -1,9 +1,134 @@
+import RsslVerif.Model.FixpointBridge
+import RsslVerif.Driver.C01
 import RsslVerif.Driver.Util
-/-! Line-protocol front end of the C04 model (stub until the model is built). -/
+/-!
+Line-protocol front end of the C04 model.
+
+`C04.reelab <source> <ctx> <ir>`: parses the first-generation IR (the serialisation of C01, reusing its reader),
+erases it to the C03 expression type (`FixpointBridge.erase`), and for every expression position predicts what the real
+front end makes of the exported text: `Fixpoint.unelab` (the exporter as the front end reads it), `Elab.elabTop`
+(C03's model of `parse_expr`) in the environment of the exported program (`Fixpoint.uniqueNames`), then the conversion
+the position asks for.  Printed in the form the harness prints the real second-generation IR.
+`C04.fix` requests have no model side (the whole-program fixpoint is the property's own oracle).
+-/
 namespace RsslVerif.Driver.C04
+open RsslVerif.Gen.RankTable RsslVerif.Gen.TypingTables
+open RsslVerif.Model RsslVerif.Model.Conv RsslVerif.Model.Overload RsslVerif.Model.IrTyping RsslVerif.Model.Elab
+open RsslVerif.Model.Fixpoint RsslVerif.Model.FixpointBridge RsslVerif.Driver RsslVerif.Driver.C01
+
+structure Tab where
+  /-- position ↦ (variable, emitted name, type) -/
+  vars : List (Ir.Var × String × Ir.Ty)
+  /-- position ↦ (function id, emitted name) -/
+  funcs : List (Nat × String)
+
+def Tab.idx (t : Tab) : Idx where
+  var v := t.vars.findIdx? (·.1 == v)
+  func f := t.funcs.findIdx? (·.1 == f)
+
+def kindName : Scalar → String
+  | .bool => "bool" | .intLiteral => "intlit" | .int32 => "i32" | .uInt32 => "u32"
+  | .floatLiteral => "flit" | .float32 => "f32" | .float16 => "f16" | .float64 => "f64"
+
+def tyName (t : Ty) : String :=
+  if t.mod ≠ {} then "?modified" else
+  match t.layer with
+  | .scalar .bool => "bool" | .scalar .int32 => "int" | .scalar .uInt32 => "uint" | .scalar .float32 => "float"
+  | .scalar .intLiteral => "lit" | .scalar .floatLiteral => "flit"
+  | _ => "?type"
+
+mutual
+def showI (t : Tab) : IExpr → String
+  | .lit k => "(lit " ++ kindName k ++ ")"
+  | .var i =>
+    match t.vars[i]? with
+    | some (.loc _, n, _) => "(var " ++ n ++ ")"
+    | some (.glob _, n, _) => "(glob " ++ n ++ ")"
+    | none => "(var ?" ++ toString i ++ ")"
+  | .tern c a b => "(tern " ++ showI t c ++ " " ++ showI t a ++ " " ++ showI t b ++ ")"
+  | .seq a b => "(seq " ++ showI t a ++ " " ++ showI t b ++ ")"
+  | .call f args => "(call " ++ ((t.funcs[f]?.map (·.2)).getD ("?f" ++ toString f)) ++ showIs t args ++ ")"
+  | .cast ty e => "(cast " ++ tyName ty ++ " " ++ showI t e ++ ")"
+  | .op o args => "(op " ++ o.name ++ showIs t args ++ ")"
+def showIs (t : Tab) : IArgs → String
+  | .nil => ""
+  | .cons e r => " " ++ showI t e ++ showIs t r
+end
+
+def dirOf : Ir.Dir → InputModifier
+  | .in_ => .in | .out => .out | .inout => .inOut
+
+def sigOf (fn : Ir.Func) : FuncSig :=
+  { name := fn.id, params := fn.params.map fun (_, d, ty) => ⟨eraseTy ty, dirOf d⟩, nonDefault := fn.params.length,
+    ret := eraseTy fn.ret }
+
+/-- one expression position -/
+def pos (t : Tab) (Γ' : Env) (ctx : Option ETy) (e : Ir.Expr) : String :=
+  match erase t.idx e with
+  | none => "(unsupported)"
+  | some i1 =>
+    match reelabPos Γ' ctx i1 with
+    | .ok i2 => showI t i2
+    | .error m => "(error " ++ m ++ ")"
+
+def varCtx (t : Tab) (id : Nat) : Option ETy :=
+  (t.vars.find? (·.1 == .loc id)).map fun v => (eraseTy v.2.2).unmod.r
+
+def defPos (t : Tab) (Γ' : Env) (d : Nat × Option Ir.Expr) : List String :=
+  match d.2 with
+  | none => []
+  | some e => [pos t Γ' (varCtx t d.1) e]
+
+def optPos (t : Tab) (Γ' : Env) : Option Ir.Expr → List String
+  | none => []
+  | some e => [pos t Γ' none e]
+
+mutual
+partial def stmtPos (t : Tab) (Γ' : Env) : Ir.Stmt → List String
+  | .expr e => [pos t Γ' none e]
+  | .var id init => defPos t Γ' (id, init)
+  | .block b => stmtsPos t Γ' b
+  | .ifThen c b => pos t Γ' none c :: stmtsPos t Γ' b
+  | .ifElse c x y => pos t Γ' none c :: (stmtsPos t Γ' x ++ stmtsPos t Γ' y)
+  | .for init cond inc b =>
+    (match init with
+      | .empty => []
+      | .expr e => [pos t Γ' none e]
+      | .defs ds => ds.flatMap (defPos t Γ')) ++ optPos t Γ' cond ++ optPos t Γ' inc ++ stmtsPos t Γ' b
+  | .while c b => pos t Γ' none c :: stmtsPos t Γ' b
+  | .doWhile b c => stmtsPos t Γ' b ++ [pos t Γ' none c]
+  | .ret none => []
+  | .ret (some e) =>
+    -- `return e` converts to the return type of the function being checked
+    [pos t Γ' (Γ'.ret.map fun rt => rt.r) e]
+  | .switch _ c b => pos t Γ' none c :: stmtsPos t Γ' b
+  | _ => []
+partial def stmtsPos (t : Tab) (Γ' : Env) : Ir.Stmts → List String
+  | .nil => []
+  | .cons s r => stmtPos t Γ' s ++ stmtsPos t Γ' r
+end
+
+def handleReelab (ctx ir : String) : String :=
+  let items := parseAll ir
+  if items.any (Sx.hasHead "unsupported") || (ctx.splitOn "unsupported").length > 1 then
+    "unsupported" else
+  match parseCtx? ctx, sequenceOpt (items.map parseFunc?) with
+  | some inf, some prog =>
+    let t : Tab :=
+      { vars := inf.vars.map (fun v => (Ir.Var.loc v.1, v.2.1, v.2.2)) ++
+                inf.globs.map (fun g => (Ir.Var.glob g.1, g.2.1, g.2.2.1)),
+        funcs := prog.map fun f => (f.id, (inf.ctx).funcName f.id) }
+    let Γ : Env := { vars := t.vars.map fun v => eraseTy v.2.2, funcs := prog.map sigOf }
+    let lines := prog.map fun fn =>
+      let Γ' : Env := { uniqueNames Γ with ret := if fn.ret = .void then none else some (eraseTy fn.ret) }
+      "fn " ++ (inf.ctx).funcName fn.id ++ ": " ++ " ;; ".intercalate (stmtsPos t Γ' fn.body)
+    " || ".intercalate lines
+  | _, _ => "bad-request"
 
 def handle (op : String) (args : List String) : String :=
-  let _ := (op, args)
-  "unsupported-op"
+  match op, args with
+  | "C04.reelab", [_src, ctx, ir] => if ctx == "-" then "skip" else handleReelab ctx ir
+  | "C04.fix", _ => "unsupported"
+  | _, _ => "unsupported-op"
 
 end RsslVerif.Driver.C04
